@@ -32,10 +32,14 @@ def checkExclPrimalFn (k : Nat) (ρ : Fin k → EMat d d) (p : Fin k → Rat) (M
     Option Rat :=
   if povmPsdOk k M LM && povmSumOk k M then some (exclValueFn k ρ p M) else none
 
+/-- slack `p_i ρ_i − Y` of the `i`-th constraint `y_var << probs[i] * ρ_i` of `_min_error_dual` -/
+def exclDualSlack {k : Nat} (ρ : Fin k → EMat d d) (p : Fin k → Rat) (Y : EMat d d) (i : Fin k) : EMat d d :=
+  smul (p i) (ρ i) - Y
+
 /-- every `p_i ρ_i − Y` carries a valid PSD witness -/
 def exclDualPsdOk (k : Nat) (ρ : Fin k → EMat d d) (p : Fin k → Rat) (Y : EMat d d)
     (LY : Fin k → EMat d d) : Bool :=
-  allFin k fun i => psdCert (smul (p i) (ρ i) - Y) (LY i)
+  allFin k fun i => psdCert (exclDualSlack ρ p Y i) (LY i)
 
 /-- `some (Re tr Y)` iff `Y` is Hermitian and every `p_i ρ_i − Y` has a valid PSD witness -/
 def checkExclDualFn (k : Nat) (ρ : Fin k → EMat d d) (p : Fin k → Rat) (Y : EMat d d)
@@ -62,5 +66,154 @@ def checkExclDual (ens : Ensemble d) (Y : EMat d d) (LY : List (EMat d d)) : Opt
   if lens3Ok ens.size ens.probs.length LY.length ens.size then
     checkExclDualFn ens.size (fun i => ens.state i) (fun i => ens.prob i) Y (fun i => matAt LY i)
   else none
+
+/-! ## The programs `state_exclusion` builds, evaluated at a point
+
+Every constraint of the four picos programs has a *slack*: the operator that must be PSD, or the residual that
+must vanish.  The checkers below accept exactly when each slack passes its exact test, and the driver hands the
+same slacks to the harness, which compares them entry by entry with the slacks of the *captured* picos
+problem at the same point (stream `embedding`). -/
+
+/-- `Σ_i p_i ρ_i` (`sums_of_unnormalized_dms` in `_unambiguous_primal` / `_unambiguous_dual`) -/
+def sumStates (k : Nat) (ρ : Fin k → EMat d d) (p : Fin k → Rat) : EMat d d :=
+  sumMats k fun i => smul (p i) (ρ i)
+
+/-- residual of `picos.sum(measurements) == picos.I(dim)` in `_min_error_primal` -/
+def exclPrimalEqResidual (k : Nat) (M : Fin k → EMat d d) : EMat d d := sumMats k M - one
+
+/-- `inconclusive_measurement = I − Σ_i M_i` of `_unambiguous_primal` -/
+def unambRest (k : Nat) (M : Fin k → EMat d d) : EMat d d := one - sumMats k M
+
+/-- left side of the `i`-th constraint `(m | rho).real == 0` of `_unambiguous_primal` (`rho = p_i ρ_i`) -/
+def unambZeroLhs {k : Nat} (ρ : Fin k → EMat d d) (p : Fin k → Rat) (M : Fin k → EMat d d) (i : Fin k) : Rat :=
+  ((smul (p i) (ρ i)).mul (M i)).trace.re
+
+/-- objective `Re tr(Σ_i p_i ρ_i · (I − Σ_i M_i))` of `_unambiguous_primal` -/
+def unambExclValueFn (k : Nat) (ρ : Fin k → EMat d d) (p : Fin k → Rat) (M : Fin k → EMat d d) : Rat :=
+  ((sumStates k ρ p).mul (unambRest k M)).trace.re
+
+/-- slack of the `i`-th constraint `N + a[i] * p_i ρ_i >> Σ_j p_j ρ_j` of `_unambiguous_dual` -/
+def unambDualSlack (k : Nat) (ρ : Fin k → EMat d d) (p : Fin k → Rat) (N : EMat d d) (a : Fin k → Rat)
+    (i : Fin k) : EMat d d :=
+  N + smul (a i) (smul (p i) (ρ i)) - sumStates k ρ p
+
+/-- the objective `1 − tr N` that `_unambiguous_dual` hands to the solver -/
+def unambDualCodeObjective (N : EMat d d) : Rat := 1 - N.trace.re
+
+/-- the bound that weak duality gives for a dual-feasible `(N, a)`: `Re tr(Σ_i p_i ρ_i) − Re tr N`
+(equal to the code's objective exactly when `Re tr(Σ_i p_i ρ_i) = 1`) -/
+def unambDualBound (k : Nat) (ρ : Fin k → EMat d d) (p : Fin k → Rat) (N : EMat d d) : Rat :=
+  (sumStates k ρ p).trace.re - N.trace.re
+
+/-- `some (Re tr(S (1 − Σ M_i)))` iff every `M_i` and `1 − Σ_i M_i` has a valid PSD witness and
+`Re tr(p_i ρ_i M_i) = 0` exactly for every `i` -/
+def checkUnambExclPrimalFn (k : Nat) (ρ : Fin k → EMat d d) (p : Fin k → Rat) (M LM : Fin k → EMat d d)
+    (LR : EMat d d) : Option Rat :=
+  if povmPsdOk k M LM && psdCert (unambRest k M) LR && allFin k (fun i => decide (unambZeroLhs ρ p M i = 0))
+  then some (unambExclValueFn k ρ p M) else none
+
+/-- `some (Re tr S − Re tr N)` iff `N` and every `N + a_i p_i ρ_i − S` has a valid PSD witness -/
+def checkUnambExclDualFn (k : Nat) (ρ : Fin k → EMat d d) (p : Fin k → Rat) (N : EMat d d) (a : Fin k → Rat)
+    (LN : EMat d d) (LD : Fin k → EMat d d) : Option Rat :=
+  if psdCert N LN && allFin k (fun i => psdCert (unambDualSlack k ρ p N a i) (LD i))
+  then some (unambDualBound k ρ p N) else none
+
+/-- list interface of `checkUnambExclPrimalFn` (lengths of `probs`, `M`, `LM` must equal the number of states) -/
+def checkUnambExclPrimal (ens : Ensemble d) (M LM : List (EMat d d)) (LR : EMat d d) : Option Rat :=
+  if lens3Ok ens.size ens.probs.length M.length LM.length then
+    checkUnambExclPrimalFn ens.size (fun i => ens.state i) (fun i => ens.prob i)
+      (fun i => matAt M i) (fun i => matAt LM i) LR
+  else none
+
+/-- list interface of `checkUnambExclDualFn` (lengths of `probs`, `a`, `LD` must equal the number of states) -/
+def checkUnambExclDual (ens : Ensemble d) (N : EMat d d) (a : List Rat) (LN : EMat d d)
+    (LD : List (EMat d d)) : Option Rat :=
+  if lens3Ok ens.size ens.probs.length a.length LD.length then
+    checkUnambExclDualFn ens.size (fun i => ens.state i) (fun i => ens.prob i) N (fun i => ratAt a i) LN
+      (fun i => matAt LD i)
+  else none
+
+/-! ## Argument normalisation of `state_exclusion` -/
+
+/-- `to_density_matrix` on a vector (1-D, row or column array): `np.outer(v, conj v)` -/
+def toDensityVec (v : EMat d 1) : EMat d d := v.mul v.ct
+
+/-- a state argument: a vector (any of the three vector layouts) or a square matrix, which
+`to_density_matrix` returns unchanged -/
+inductive StateArg (d : Nat) where
+  | vec (v : EMat d 1)
+  | dm (ρ : EMat d d)
+
+/-- `to_density_matrix` -/
+def StateArg.density : StateArg d → EMat d d
+  | .vec v => toDensityVec v
+  | .dm ρ => ρ
+
+/-- `probs = [1 / n] * n if probs is None else probs` -/
+def defaultProbs (n : Nat) (probs : Option (List Rat)) : List Rat :=
+  match probs with
+  | none => List.replicate n (1 / (n : Rat))
+  | some p => p
+
+/-- the ensemble the four programs are built from -/
+def prepare (states : List (StateArg d)) (probs : Option (List Rat)) : Ensemble d :=
+  ⟨states.map StateArg.density, defaultProbs states.length probs⟩
+
+/-! ## What `is_antidistinguishable` and `common_quantum_overlap` do with the solver's value -/
+
+/-- `|q|` -/
+def ratAbs (q : Rat) : Rat := if q < 0 then -q else q
+
+/-- NumPy's default absolute tolerance of `isclose` -/
+def npAtol : Rat := 1 / 100000000
+/-- NumPy's default relative tolerance of `isclose` -/
+def npRtol : Rat := 1 / 100000
+
+/-- `np.isclose(a, b)` with the default tolerances: `|a − b| ≤ atol + rtol · |b|` -/
+def isclose (a b : Rat) : Bool := decide (ratAbs (a - b) ≤ npAtol + npRtol * ratAbs b)
+
+/-- the weights `[1] * len(states)` both functions pass as `probs` -/
+def onesProbs (n : Nat) : List Rat := List.replicate n 1
+
+/-- `is_antidistinguishable`: `np.isclose(opt_val, 0)` -/
+def antidistTest (optVal : Rat) : Bool := isclose optVal 0
+
+/-- `common_quantum_overlap`: `n * (1 - (1 - opt_val / n))` -/
+def cqoPost (n : Nat) (optVal : Rat) : Rat := (n : Rat) * (1 - (1 - optVal / (n : Rat)))
+
+/-! ## The named families: `trine()` and `pusey_barrett_rudolph(n, theta)`
+
+The constructors are polynomial in a few irrational numbers (`√3`; `cos(θ/2)`, `sin(θ/2)`); the model takes those
+numbers as parameters of an arbitrary scalar type, so the same definition runs on exact rationals in the driver and
+is instantiated at `ℂ` in the proofs. -/
+
+section Families
+variable {α : Type} [Add α] [Sub α] [Mul α] [Neg α] [Zero α] [One α]
+
+/-- `np.kron` of two vectors -/
+def kronVec (u v : List α) : List α := u.flatMap fun x => v.map fun y => x * y
+
+/-- `tensor([v_0, …, v_{m-1}])` for a non-empty list: left fold of `np.kron` starting from `v_0` -/
+def tensorVecs : List (List α) → List α
+  | [] => []
+  | v :: vs => vs.foldl kronVec v
+
+/-- `itertools.product([0, 1], repeat=n)` in its order (last position varies fastest) -/
+def binaryStrings : Nat → List (List Nat)
+  | 0 => [[]]
+  | n + 1 => (binaryStrings n).flatMap fun b => [b ++ [0], b ++ [1]]
+
+/-- `psi = [cos(θ/2) e_0 + sin(θ/2) e_1, cos(θ/2) e_0 − sin(θ/2) e_1]` with `c = cos(θ/2)`, `s = sin(θ/2)` -/
+def pbrPsi (c s : α) (b : Nat) : List α := if b = 0 then [c, s] else [c, -s]
+
+/-- `pusey_barrett_rudolph(n, theta)` as a list of `2^n` vectors of length `2^n` -/
+def pbrStates (n : Nat) (c s : α) : List (List α) :=
+  (binaryStrings n).map fun b => tensorVecs (b.map (pbrPsi c s))
+
+/-- `trine()`: `e_0`, `−½(e_0 + √3 e_1)`, `−½(e_0 − √3 e_1)` with `h = ½`, `r = √3` -/
+def trineStates (h r : α) : List (List α) :=
+  [[1, 0], [-h * (1 + r * 0), -h * (0 + r * 1)], [-h * (1 - r * 0), -h * (0 - r * 1)]]
+
+end Families
 
 end Toq.Excl
